@@ -1,6 +1,8 @@
 package main
 
 import (
+	"github.com/olive-io/bpmn/v2/pkg/tracing"
+	"sync/atomic"
 	"github.com/olive-io/bpmn/v2/pkg/event"
 	"fmt"
 	"strings"
@@ -526,6 +528,97 @@ func runC06(env *Env) {
 		}
 		if problem != "" {
 			rep.Violate("C06-one-winner", cs, problem+"; log: "+logString(in.Log()))
+		}
+		in.Close()
+	}
+	// a host that delivers first and reads its traces afterwards: G1 {sig0, sig1}; the branch of sig0 leads to G2
+	// {sig2, sig3}. sig0 decides G1. Then, while the host's subscriber pauses (the tracer, and with it every node that
+	// reports an event, stands still), a goroutine delivers many late copies of sig1 (every event is offered to every
+	// catch event) and then sig2. When the host reads again the outcome is that of the same deliveries made one by
+	// one: sig2 wins G2, the instance completes.
+	for rnd := 0; rnd < 3 && !rep.Saturated(); rnd++ {
+		cs := fmt.Sprintf("two event-based gateways in a row; after sig0, 60 late copies of sig1 and then sig2 are delivered while the host does not read its traces for 150 ms (round %d)", rnd)
+		env.Current(cs)
+		p := &Prog{}
+		p.Node("start", "start")
+		p.Node("ebg", "G1")
+		p.Node("ebg", "G2")
+		for i := 0; i < 4; i++ {
+			c := p.Node("catch", fmt.Sprintf("C%d", i))
+			c.Inner = fmt.Sprintf(`<bpmn:signalEventDefinition id="sd%d" signalRef="sig%d"/>`, i, i)
+		}
+		p.Node("task", "B1")
+		p.Node("task", "B2")
+		p.Node("task", "B3")
+		p.Node("end", "end")
+		p.Flow("start", "G1", "")
+		p.Flow("G1", "C0", "")
+		p.Flow("G1", "C1", "")
+		p.Flow("C0", "G2", "")
+		p.Flow("C1", "B1", "")
+		p.Flow("G2", "C2", "")
+		p.Flow("G2", "C3", "")
+		p.Flow("C2", "B2", "")
+		p.Flow("C3", "B3", "")
+		p.Flow("B1", "end", "")
+		p.Flow("B2", "end", "")
+		p.Flow("B3", "end", "")
+		defs, err := ParseDefs(p.XML(`<bpmn:signal id="sig0" name="sig0"/><bpmn:signal id="sig1" name="sig1"/><bpmn:signal id="sig2" name="sig2"/><bpmn:signal id="sig3" name="sig3"/>`))
+		must(err)
+		var paused atomic.Bool
+		resume := make(chan struct{})
+		in, err := StartInst(defs, InstOpt{Raw: func(tracing.ITrace) {
+			if paused.Load() {
+				<-resume
+			}
+		}})
+		must(err)
+		rep.Evaluations++
+		rep.Nontrivial++
+		rep.Count("deliver_then_read")
+		problem := ""
+		if !in.WaitUntil(tmoStep, func(l []Ev) bool { return countEv(l, "visit", "C0") >= 1 && countEv(l, "visit", "C1") >= 1 }) {
+			problem = "the alternatives' tokens did not arrive at their catch events"
+		}
+		if problem == "" {
+			time.Sleep(6 * time.Millisecond)
+			in.Signal("sig0")
+			if !in.WaitUntil(tmoStep, func(l []Ev) bool { return countEv(l, "visit", "C2") >= 1 && countEv(l, "visit", "C3") >= 1 }) {
+				problem = "sig0 delivered: G1's alternative C0 did not lead to G2"
+			}
+		}
+		if problem == "" {
+			time.Sleep(6 * time.Millisecond)
+			paused.Store(true)
+			delivered := make(chan struct{})
+			go func() {
+				defer close(delivered)
+				for i := 0; i < 60; i++ {
+					in.Signal("sig1")
+					time.Sleep(time.Millisecond)
+				}
+				in.Signal("sig2")
+			}()
+			time.Sleep(150 * time.Millisecond)
+			paused.Store(false)
+			close(resume)
+			select {
+			case <-delivered:
+			case <-time.After(tmoStep):
+				problem = "the deliveries did not return after the host had resumed reading"
+			}
+		}
+		if problem == "" {
+			if !in.Answer("B2", tmoStep) {
+				problem = "sig0 then sig2 were delivered: the branch of G2's alternative C2 did not continue"
+			} else if !in.WaitCease(tmoStep) {
+				problem = "the winner was answered, the instance did not complete"
+			} else if l := in.Log(); countEv(l, "task", "B1")+countEv(l, "task", "B3") != 0 || countEv(l, "task", "B2") != 1 {
+				problem = fmt.Sprintf("requests B1 %d, B2 %d, B3 %d (expected 0, 1, 0)", countEv(l, "task", "B1"), countEv(l, "task", "B2"), countEv(l, "task", "B3"))
+			}
+		}
+		if problem != "" {
+			rep.Violate("C06-one-winner", cs, problem+"; log (tail): "+tailStr(logString(in.Log()), 1500))
 		}
 		in.Close()
 	}
